@@ -42,8 +42,19 @@ structure Node where
   own : List SField            -- fields declared in the class body
   deriving Repr, DecidableEq, Inhabited
 
+/-- The classes the strategy works on, as a tree.  With `subclasses=None` these are the root and all its descendants.
+With an explicit `subclasses=(…)` they are the root and the LISTED classes: a listed class hangs below its nearest
+listed ancestor (the code only ever asks `issubclass` / intersects real subtrees with the listing, so an omitted
+intermediate class is transparent) and carries the fields of the omitted classes in between as its own.  Two places
+of the code see more than that tree, hence two extra pieces of information:
+* `indirect`: the classes whose direct base is NOT in the listing (`_has_subclasses` looks at `cl.__subclasses__()`,
+  direct children only);
+* `order`: the class tuple `(cl, *subclasses)` as given — any order, a class possibly more than once (listed twice; or
+  found twice by `_make_subclasses_tree` in a diamond-shaped hierarchy); `[]` = the depth-first walk. -/
 structure Tree where
   nodes : List Node
+  indirect : List Nat := []
+  order : List Nat := []
   deriving Repr, DecidableEq
 
 def Tree.node (tr : Tree) (c : Nat) : Node := tr.nodes.getD c ⟨Option.none, []⟩
@@ -62,6 +73,12 @@ def Tree.preorderF (tr : Tree) : Nat → Nat → List Nat
 /-- `parent_subclass_tree` / `union_classes` for `include_subclasses(<class 0>, converter)` -/
 def Tree.unionClasses (tr : Tree) : List Nat := tr.preorderF tr.size 0
 
+/-- `parent_subclass_tree` / `union_classes` in the order the code iterates over them -/
+def Tree.classTuple (tr : Tree) : List Nat := if tr.order.isEmpty then tr.unionClasses else tr.order
+
+/-- the classes that occur more than once in the class tuple -/
+def Tree.dups (tr : Tree) : List Nat := tr.classTuple.filter (fun c => decide (1 < tr.classTuple.count c))
+
 /-- `issubclass(c, k)` (walk up the bases) -/
 def Tree.isSubF (tr : Tree) : Nat → Nat → Nat → Bool
   | 0, c, k => c == k
@@ -78,9 +95,9 @@ def Tree.subclassesOf (tr : Tree) (k : Nat) : List Nat := tr.unionClasses.filter
 /-- the descendants of `k` including `k` itself (vocabulary of the property statement) -/
 abbrev Tree.descendants (tr : Tree) (k : Nat) : List Nat := tr.subclassesOf k
 
-/-- `_has_subclasses(cl, union_classes)` -/
+/-- `_has_subclasses(cl, union_classes)`: `bool(set(cl.__subclasses__()) & set(given))` — DIRECT subclasses only -/
 def Tree.hasSubclasses (tr : Tree) (k : Nat) : Bool :=
-  (tr.children k).any (fun c => tr.unionClasses.contains c)
+  (tr.children k).any (fun c => tr.unionClasses.contains c && !tr.indirect.contains c)
 
 /-! ## fields by inheritance -/
 
@@ -217,14 +234,43 @@ pass, every class), or `K`'s own hook when nothing was registered. -/
 def unUnion (tr : Tree) (us : UStrat) (forbid : Bool) (H : Tagged.Hooks) (K : Nat) (x : Obj) : Option Obj :=
   if tr.anyParent then Tagged.tagUn (fullTU tr us forbid) H x else H.un K x
 
-/-- The structure hook in force for class `K`: `sh = lambda payload, _: struct_hook_of_u(payload, u)` when
-`len(subclasses) > 1`; a leaf keeps the hook of the first pass. -/
-def stUnion (tr : Tree) (us : UStrat) (forbid : Bool) (H : Tagged.Hooks) (K : Nat) (p : Obj) : Option Obj :=
-  if tr.anyParent && decide (1 < (tr.subclassesOf K).length) then Tagged.tagSt (subTU tr us forbid K) H p
-  else H.st K p
+/-- The second pass, one class of the tuple after the other: `if len(subclasses) > 1: union_strategy(u, converter);
+sh = …; converter.register_structure_hook_func(cls_is_cl, sh)`.  `configure_tagged_union(u, converter)` fetches the member
+hooks with `converter.get_structure_hook(member)` — the hooks in force AT THAT MOMENT (`cur`): the member's own hook of
+the first pass, or, if the member was handled earlier in the tuple and has subclasses itself, the union hook `sh`
+registered for it then. -/
+def secondPass (tr : Tree) (us : UStrat) (forbid : Bool) (H : Tagged.Hooks) :
+    List Nat → (Nat → Obj → Option Obj) → (Nat → Obj → Option Obj)
+  | [], cur => cur
+  | cl :: rest, cur =>
+    if 1 < (tr.subclassesOf cl).length then
+      secondPass tr us forbid H rest
+        (fun c => if c = cl then (fun p => Tagged.tagSt (subTU tr us forbid cl) { un := H.un, st := cur } p) else cur c)
+    else secondPass tr us forbid H rest cur
 
+/-- The structure hook in force for class `K` afterwards: the `sh` registered for it (last) in the second pass when
+`len(subclasses) > 1`; a class without subclasses keeps the hook of the first pass. -/
+def stUnion (tr : Tree) (us : UStrat) (forbid : Bool) (H : Tagged.Hooks) (K : Nat) (p : Obj) : Option Obj :=
+  if tr.anyParent then secondPass tr us forbid H tr.classTuple H.st K p else H.st K p
+
+/-- The class tuple is in an order the second pass copes with: when a class is handled, none of the members of its
+sub-union that have subclasses themselves has been handled before (true of the depth-first walk of a tree; false when a
+class with subclasses is listed before one of its ancestors, or twice — finding F66 then, with `forbid_extra_keys`). -/
+def OrderOKF (tr : Tree) : List Nat → List Nat → Prop
+  | [], _ => True
+  | cl :: rest, done =>
+    (∀ c ∈ done, c ∈ tr.subclassesOf cl → ¬ 1 < (tr.subclassesOf c).length) ∧ OrderOKF tr rest (cl :: done)
+
+def OrderOK (tr : Tree) : Prop := OrderOKF tr tr.classTuple []
+
+/-- does applying the union strategy return?  Nothing happens without `parent_classes`; otherwise every tag must be
+hashable, and a class that occurs twice in the class tuple must have another class below it: in the second pass
+`subclasses = tuple([c for c in union_classes if issubclass(c, cl)])` is `(E, E)` for a duplicated `E` without
+subclasses, `len(subclasses) > 1`, and `Union[(E, E)]` is `E` itself — `union_strategy(E, converter)` raises
+`AttributeError: __args__`. -/
 def applyUnionOk (tr : Tree) (us : UStrat) : Bool :=
-  !tr.anyParent || tr.unionClasses.all (fun c => Tagged.tagHashable (us.tag c))
+  !tr.anyParent || (tr.unionClasses.all (fun c => Tagged.tagHashable (us.tag c)) &&
+                    tr.dups.all (fun c => decide (1 < (tr.subclassesOf c).length)))
 
 /-! ## both strategies behind one interface -/
 
@@ -292,10 +338,13 @@ structure TreeOKAuto (tr : Tree) (so : Disambig.SetOrder) (uo : UnionOrder tr) :
   deep : ∀ K ∈ tr.unionClasses, 2 ≤ (uo.mem K).length →
     Disambig.deepOk so tr.table (uo.mem K).length (uo.mem K) = true
 
-/-- the union strategy's tag generator is injective on the tree and produces hashable tags -/
+/-- the union strategy's tag generator is injective on the tree and produces hashable tags; no class without
+subclasses occurs twice in the class tuple (else applying the strategy raises, finding F64) -/
 structure TreeOKUnion (tr : Tree) (us : UStrat) : Prop where
   inj : Tagged.InjectiveOn us.tag tr.unionClasses
   hashable : ∀ c ∈ tr.unionClasses, Tagged.tagHashable (us.tag c) = true
+  nodups : ∀ c ∈ tr.dups, 1 < (tr.subclassesOf c).length
+  tuple : ∀ c, c ∈ tr.classTuple ↔ c ∈ tr.unionClasses
 
 def TreeOK (S : Setup) : Prop :=
   match S.strategy with
@@ -321,6 +370,22 @@ def F15Region (S : Setup) (K : Nat) : Prop :=
   match S.strategy with
   | .auto => False
   | .union _ => S.forbid = true ∧ S.tr.anyParent = true ∧ (S.tr.subclassesOf K).length ≤ 1
+
+/-- region of finding F65: union strategy on an explicit listing with gaps such that no listed class is the DIRECT base
+of a listed class — `parent_classes` is empty and the strategy returns without configuring anything, although the
+listing has descendants to include -/
+def F65Region (S : Setup) : Prop :=
+  match S.strategy with
+  | .auto => False
+  | .union _ => S.tr.anyParent = false ∧ S.tr.unionClasses ≠ [0]
+
+/-- region of finding F66: union strategy, `forbid_extra_keys`, a class tuple in which a class with subclasses comes
+before one of its ancestors or occurs twice: the later union hook captures the earlier one as that member's hook, pops the
+tag and hands the earlier one a payload without it -/
+def F66Region (S : Setup) : Prop :=
+  match S.strategy with
+  | .auto => False
+  | .union _ => ¬ OrderOK S.tr
 
 /-- region of finding F47: automatic strategy, some class with subclasses shares one of its own literal
 discriminator values with a descendant -/
